@@ -9,8 +9,8 @@ from __future__ import annotations
 RAISES: dict[str, dict[str, str]] = {
     # h11 ---------------------------------------------------------------------------
     "h11.Request": {"h11.LocalProtocolError": "local-send"},
-    "h11.Data": {"h11.LocalProtocolError": "local-send"},
-    "h11.EndOfMessage": {"h11.LocalProtocolError": "local-send"},
+    "h11.Data": {},          # plain container, no validation in the constructor (h11/_events.py)
+    "h11.EndOfMessage": {},  # validates only a non-default `headers=` argument, which httpcore never passes
     "h11.Connection": {},
     "h11.Connection.send": {"h11.LocalProtocolError": "local-send"},
     "h11.Connection.next_event": {"h11.RemoteProtocolError": "peer-input"},
@@ -123,6 +123,7 @@ EXC_PARENT: dict[str, str] = {
     "h2.exceptions.NoSuchStreamError": "h2.exceptions.ProtocolError",
     "socksio.exceptions.SOCKSError": "Exception",
     "socksio.exceptions.ProtocolError": "socksio.exceptions.SOCKSError",
+    "socksio.ProtocolError": "socksio.exceptions.SOCKSError",
     "anyio.BrokenResourceError": "Exception",
     "anyio.ClosedResourceError": "Exception",
     "anyio.EndOfStream": "Exception",
@@ -130,6 +131,6 @@ EXC_PARENT: dict[str, str] = {
     "trio.BrokenResourceError": "Exception",
     "trio.ClosedResourceError": "Exception",
 }
-EXC_ALIASES = {"socket.timeout": "TimeoutError"}
+EXC_ALIASES = {"socket.timeout": "TimeoutError", "socksio.ProtocolError": "socksio.exceptions.ProtocolError"}
 
 TIMEOUT_LIKE = {"TimeoutError", "socket.timeout", "trio.TooSlowError"}
